@@ -3,8 +3,13 @@ package harness
 // Small helpers shared by the generators and several checks.
 
 import (
+	"bufio"
 	"bytes"
 	"errors"
+	"fmt"
+	"io"
+	"os"
+	"runtime"
 
 	"github.com/RoaringBitmap/roaring"
 	segment "github.com/blugelabs/bluge_segment_api"
@@ -12,6 +17,12 @@ import (
 )
 
 var errInjected = errors.New("injected write failure")
+
+// the error VALUES failing writers hand back: the harness's own, and the
+// sentinels real destinations report (a broken stream, a closed file, ...)
+var writeErrs = []error{errInjected, io.EOF, io.ErrUnexpectedEOF, io.ErrShortWrite, io.ErrClosedPipe, os.ErrClosed, io.ErrNoProgress}
+
+func writeErrFor(k int) error { return writeErrs[k%len(writeErrs)] }
 
 // failAfter accepts exactly k bytes, then fails forever.
 type failAfter struct {
@@ -22,7 +33,7 @@ type failAfter struct {
 func (w *failAfter) Write(p []byte) (int, error) {
 	room := w.k - w.n
 	if room <= 0 {
-		return 0, errInjected
+		return 0, writeErrFor(w.k)
 	}
 	if len(p) <= room {
 		w.buf = append(w.buf, p...)
@@ -31,7 +42,7 @@ func (w *failAfter) Write(p []byte) (int, error) {
 	}
 	w.buf = append(w.buf, p[:room]...)
 	w.n += room
-	return room, errInjected
+	return room, writeErrFor(w.k)
 }
 
 // failOnce fails exactly one Write call - the one during which byte k would be
@@ -46,7 +57,7 @@ func (w *failOnce) Write(p []byte) (int, error) {
 		w.failed = true
 		room := w.k - w.n
 		w.n += room
-		return room, errInjected
+		return room, writeErrFor(w.k)
 	}
 	w.n += len(p)
 	return len(p), nil
@@ -86,6 +97,44 @@ func cancelledMerge(seg segment.Segment) error {
 	_, err := ice.Merge([]segment.Segment{seg}, []*roaring.Bitmap{drop}, 16).WriteTo(w, w.ch)
 	if err != nil && !errors.Is(err, segment.ErrClosed) {
 		return err
+	}
+	return nil
+}
+
+// keptWriterMerges writes the same merge three times into ONE bufio.Writer the
+// caller keeps (flushing, never resetting it) with merges into another
+// destination in between; every file must arrive completely where it was sent.
+// Pools are emptied first (two GCs), so that whatever the library recycles
+// between merges starts from scratch.
+func keptWriterMerges(segs []segment.Segment, drops []*roaring.Bitmap, good []byte, mergeBuf int) error {
+	var sink, other bytes.Buffer
+	own := bufio.NewWriterSize(&sink, 1<<16)
+	runtime.GC()
+	runtime.GC()
+	for round := 0; round < 3; round++ {
+		var n int64
+		err := safely("Merger.WriteTo(kept bufio destination)", func() error {
+			var e error
+			n, e = ice.Merge(segs, drops, mergeBuf).WriteTo(own, nil)
+			return e
+		})
+		if err == nil {
+			err = own.Flush()
+		}
+		if err != nil {
+			return fmt.Errorf("merge #%d into the caller's kept bufio.Writer: %v", round, err)
+		}
+		if n != int64(len(good)) || sink.Len() != (round+1)*len(good) || !bytes.Equal(sink.Bytes()[round*len(good):], good) {
+			return fmt.Errorf("merge #%d into the caller's kept bufio.Writer returned %d; its sink now holds %d bytes, expected %d (%d files of %d bytes); another destination used in between holds %d bytes",
+				round, n, sink.Len(), (round+1)*len(good), round+1, len(good), other.Len())
+		}
+		before := other.Len()
+		if _, err := ice.Merge(segs, drops, mergeBuf).WriteTo(&other, nil); err != nil {
+			return err
+		}
+		if other.Len()-before != len(good) || !bytes.Equal(other.Bytes()[before:], good) {
+			return fmt.Errorf("a merge into a plain buffer after merges into a kept bufio.Writer wrote %d bytes, expected %d", other.Len()-before, len(good))
+		}
 	}
 	return nil
 }
